@@ -188,8 +188,8 @@ class Symbolic(Part):
 
 
 def parts(tier):
-    from vmc.checks.c03_assembled import Assembled
-    return [Symbolic(tier), Assembled(tier)]
+    from vmc.checks.c03_assembled import Assembled, Newton
+    return [Symbolic(tier), Assembled(tier), Newton(tier)]
 
 
 def run(run, only=None):
